@@ -207,6 +207,41 @@ def model_check(ctx, scheds, name):
     return mism, len(scheds), {"coqc_s": round(dt, 2), "traces": len(scheds), "labels": sum(len(s["events"]) for s in scheds)}
 
 
+def relay_check(ctx, scheds, name):
+    """Each exchange of a schedule whose client either was served to the end or hung up in the middle of its response, as a trace
+    of Server/Relay.v; the model must accept it and end with what was observed (trailers delivered or not, the answer to the upload)."""
+    items, rows = [], []
+    for s in scheds:
+        posts = collections.defaultdict(list)
+        for e in s["events"]:
+            if e["kind"] == "post" and (e.get("resp") or "").startswith("R|"):
+                posts[parse_resp(e["resp"])[0]].append(e)
+        for r in s["results"]:
+            ps = posts.get(r["tok"]) or []
+            if len(ps) != 1 or ps[0].get("status") not in (200, 500):
+                continue    # duplicate posts, posts that timed out: the business of ProxyCore
+            acked = ps[0]["status"] == 200
+            if not r.get("err") and r.get("status") == 200:
+                got = bool(r.get("trailer"))
+                tr = "[Hand; Chunk; LastRead; Stored; WriterClose; ClientEOF; TrailersRead]" if acked else "[Hand; Chunk; UploadFail; WriterClose; ClientEOF; TrailersRead]"
+                items.append("relay_obs %s (OComplete %s) (Some %s)" % (tr, C.blit(got), C.blit(acked)))
+            elif (r.get("err") or "").startswith("aborted by the client"):
+                tr = "[Hand; Chunk; ClientFail; LastRead; Stored; WriterClose]" if acked else "[Hand; Chunk; ClientFail; PipeWriteFail; WriterClose]"
+                items.append("relay_obs %s OClientGone (Some %s)" % (tr, C.blit(acked)))
+            else:
+                continue
+            rows.append((s, r, ps[0]))
+    bad, dt = C.eval_code_items(ctx.work, name, ["From Coq Require Import ZArith List Bool.", "From IP Require Import Server.Relay Server.RelayCheck.", "Import ListNotations."], items, shard=2000)
+    if bad is None:
+        return [("cases (relay model evaluation)", "coqc failed: " + dt[-600:], {})], 0, {}
+    what = {1: "the model has no such run", 2: "the model ends with another outcome for the client (trailers delivered / client gone)", 3: "the model gives another answer to the agent's upload", 4: "the run passes through a state in which both goroutines are at the trailer map"}
+    mism = []
+    for idx, code in bad:
+        s, r, p = rows[idx]
+        mism.append(("RelayCheck.relay_obs", "schedule %d, client %d: %s" % (s["index"], r["c"], what.get(code, str(code))), {"schedule_index": s["index"], "client": r, "post_event": p, "trace": items[idx]}))
+    return mism, len(items), {"relay_exchanges": len(items), "relay_client_gone": sum(1 for i in items if "OClientGone" in i), "relay_coqc_s": round(dt, 2)}
+
+
 def coverage(obs):
     scheds = obs["schedules"]
     hist = collections.Counter()
